@@ -1,9 +1,9 @@
-import CSSVerif.Engine
+import CSSVerif.Engine2
 def nats (s : String) : List Nat := if s = "" || s = "-" then [] else (s.splitOn ",").map String.toNat!
 def b (s : String) : Bool := s == "1"
 def parseRuleOut (s : String) : RuleOut :=
   match s.splitOn ":" with
-  | [p, cs, fl, tw, iv] =>
+  | p :: cs :: fl :: tw :: iv :: _ =>
     let f := fl.toList.map (· == '1')
     { parent := p.toNat!, children := nats cs, flags := ⟨f.getD 0 false, f.getD 1 false, f.getD 2 false, f.getD 3 false⟩, twoWay := b tw, isVer := b iv }
   | _ => default
@@ -20,17 +20,23 @@ instance : Inhabited UAcc := ⟨{}⟩
 def UAcc.toU (a : UAcc) : Universe :=
   { empty := a.empty, apply := fun σ x => ((a.app.find? (·.1 == (σ, x))).map (·.2)).getD [],
     initial := a.initial, inferral := a.inferral, expansion := a.expansion, ver := a.ver, sym := a.sym, expandVerified := a.ev }
-partial def runAll (u : Universe) (fuel : Nat) (s : St) (n : Nat) : St × Nat :=
-  match stepEngine u fuel s with
-  | (s, some _) => runAll u fuel s (n+1)
-  | (s, none) => (s, n)
+partial def runSched (u : Universe) (fuel : Nat) (iter : Bool) (k : Nat) (s : E2.St) (n : Nat) (bs : List Bool) : E2.St × Nat × List Bool :=
+  let rec goK (s : E2.St) (i : Nat) (n : Nat) : E2.St × Nat × Bool :=
+    if i == 0 then (s, n, true) else
+    match E2.stepEngine u fuel s with
+    | (s, some _) => goK s (i-1) (n+1)
+    | (s, none) => (s, n, false)
+  let (s, n, more) := goK s k n
+  let (s, b) := if iter then E2.searchIter s 0 else E2.search s 0
+  if more then runSched u fuel iter k s n (bs ++ [b]) else (s, n, bs ++ [b])
 def showKeys (l : List (Nat × List Nat)) : String :=
   toString ((l.map (fun k => k.1 :: k.2)).mergeSort (fun a b => decide (a ≤ b)))
-def report (s : St) (n : Nat) : String :=
+def report (s : E2.St) (n : Nat) : String :=
   let ev := " ".intercalate (s.log.map (fun e => s!"E{e.start}>{e.ends}{if e.isVer then "v" else ""}{if e.twoWay then "t" else ""}"))
   let nl := s.cdb.classes.length
-  let ver := (List.range nl).map (fun l => if s.edb.isVerified l then 1 else 0)
-  s!"packets={n} classes={s.cdb.classes} empt={s.cdb.empties.map (fun o => match o with | none => 2 | some true => 1 | some false => 0)} rules={showKeys s.rules} eqv={showKeys s.eqv} ver={ver} tried={s.tried.mergeSort} sym={s.symExp.mergeSort} inf={s.infExp.mergeSort} ign={s.q.ignore.mergeSort} | {ev}"
+  let ver := (List.range nl).map (fun l => if s.eq.uf.isVerified l then 1 else 0)
+  let part := (List.range nl).map (fun a => ((List.range nl).find? (fun b => s.eq.equivalent a b)).getD a)
+  s!"packets={n} classes={s.cdb.classes} empt={s.cdb.empties.map (fun o => match o with | none => 2 | some true => 1 | some false => 0)} rules={showKeys s.rules} eqv={showKeys s.eqv} ver={ver} part={part} tried={s.tried.mergeSort} sym={s.symExp.mergeSort} inf={s.infExp.mergeSort} ign={s.q.ignore.mergeSort} | {ev}"
 partial def loop (h : IO.FS.Stream) (a : UAcc) : IO Unit := do
   let line ← h.getLine
   if line.isEmpty then pure () else
@@ -39,10 +45,10 @@ partial def loop (h : IO.FS.Stream) (a : UAcc) : IO Unit := do
     | ["A", σ, x, rs] => loop h { a with app := a.app ++ [((σ.toNat!, x.toNat!), (rs.splitOn ";").map parseRuleOut)] }
     | ["P", i, f, e, v, y, ev] =>
       loop h { a with initial := nats i, inferral := nats f, expansion := if e = "-" then [] else (e.splitOn ";").map nats, ver := nats v, sym := nats y, ev := b ev }
-    | ["R", c] =>
+    | ["R", c, k, it] =>
       let u := a.toU
       let fuel := 4 * a.empty.size + 10
-      let (s, n) := runAll u fuel (initEngine u fuel c.toNat!) 0
-      IO.println (report s n); loop h a
-    | _ => IO.println "bad"; loop h a
+      let (s, n, bs) := runSched u fuel (b it) k.toNat! (E2.initEngine u fuel c.toNat!) 0 []
+      IO.println (s!"spec={bs.map (fun b => if b then 1 else 0)} " ++ report s n); loop h a
+    | _ => IO.println "bad-op"; loop h a
 def main : IO Unit := do loop (← IO.getStdin) {}
